@@ -67,4 +67,4 @@ use eyre::{OptionExt as _, WrapErr as _};
 
 /// replacement for alloc::fmt::format in harnesses (`#[kani::stub(alloc::fmt::format, crate::vx_stub_format)]`):
 /// formatted messages are never inspected by the code under proof
-pub fn vx_stub_format(_args: std::fmt::Arguments<'_>) -> String { String::new() }
+pub fn vx_stub_format(_args: std::fmt::Arguments<'_>) -> std::string::String { std::string::String::new() }
